@@ -26,6 +26,8 @@ from ..world import World, run_world
 
 ID = 'C16'
 LEVEL = 'fault_enumeration'
+QUICK_SCALE = 4      # the quick tier was enlarged by this factor after MIN_OBS['quick'] was measured
+QUICK_FIXED = ('pending_work_kinds', 'burst_cut_points', 'burst_stop_points', 'port_cfgs')      # counters of fixed-size parts (coverage, enumerations): not scaled
 ME = 'me'
 RECONNECT_TIMEOUT = 5            # settings.network.server.reconnect.timeout in every case
 RECONNECT_BOUND = RECONNECT_TIMEOUT + 1.0 + 0.5 + 1.0      # timeout + 1 s + watchdog period + slack
@@ -123,7 +125,7 @@ MIN_OBS = {
                  'burst_cut_points': BURST_LEN + 1, 'burst_stop_points': BURST_LEN + 1, 'port_cfgs': len(PORT_CFGS)},
 }
 SHARD_TIMEOUT = {'quick': 600, 'thorough': 5400}
-N_TOTAL = {'quick': 300, 'thorough': 10000}
+N_TOTAL = {'quick': 1200, 'thorough': 10000}
 EXHAUSTIVE = {'quick': False, 'thorough': False}
 WHAT_FAILS = {
     'login:favourites-joined-although-auto-join-off': 'rooms.auto_join is False but the favourite rooms were joined after login',
